@@ -3,6 +3,7 @@ package main
 // `regs` operations: sequences of typed accessor calls on packet.Registers.
 
 import (
+	modbus "github.com/aldas/go-modbus-client"
 	"fmt"
 	"math"
 	"strings"
@@ -49,6 +50,36 @@ func accessOne(r *packet.Registers, op string) (out string) {
 			return errStr(err)
 		}
 		return "ok " + s
+	}
+	if strings.HasPrefix(name, "F") {
+		// the same read through Field.ExtractFrom of the request builder
+		ft, ok := map[string]modbus.FieldType{"bit": modbus.FieldTypeBit, "byte": modbus.FieldTypeByte, "u8": modbus.FieldTypeUint8,
+			"i8": modbus.FieldTypeInt8, "u16": modbus.FieldTypeUint16, "i16": modbus.FieldTypeInt16, "u32": modbus.FieldTypeUint32,
+			"u32o": modbus.FieldTypeUint32, "i32": modbus.FieldTypeInt32, "i32o": modbus.FieldTypeInt32, "u64": modbus.FieldTypeUint64,
+			"u64o": modbus.FieldTypeUint64, "i64": modbus.FieldTypeInt64, "i64o": modbus.FieldTypeInt64, "f32": modbus.FieldTypeFloat32,
+			"f32o": modbus.FieldTypeFloat32, "f64": modbus.FieldTypeFloat64, "f64o": modbus.FieldTypeFloat64,
+			"str": modbus.FieldTypeString, "stro": modbus.FieldTypeString}[name[1:]]
+		if !ok {
+			return "NOACC"
+		}
+		f := modbus.Field{Name: "f", Address: addr, Type: ft}
+		switch name[1:] {
+		case "bit":
+			f.Bit = uint8(x0)
+		case "byte", "u8", "i8":
+			f.FromHighByte = x0 != 0
+		case "str":
+			f.Length = uint8(x0)
+		case "stro":
+			f.Length, f.ByteOrder = uint8(x0), packet.ByteOrder(x1)
+		case "u32o", "i32o", "u64o", "i64o", "f32o", "f64o":
+			f.ByteOrder = packet.ByteOrder(x0)
+		}
+		v, err := f.ExtractFrom(r)
+		if err != nil {
+			return errStr(err)
+		}
+		return "ok " + valueStr(v)
 	}
 	switch name {
 	case "bit":
